@@ -136,11 +136,23 @@ Fixpoint tr_compute_frames (k : nat) (f : list nat -> list (list Z) -> result (l
   match fs with
   | [] => ([], tl)
   | fr :: rest =>
-    match tr_add_col k f fr with
+    match (if ch_mem k cs then tr_add_col k f fr else Ok fr) with
     | Err e => ([], Some e)
     | Ok fr' => if ch_known (ch_names fr') cs
                 then let s := tr_compute_frames k f cs rest tl in (ch_sel cs fr' :: fst s, snd s)
                 else ([], Some EKey)
+    end
+  end.
+
+(* the same with columns=None: every chunk keeps all its columns and gets the computed one *)
+Fixpoint tr_compute_frames_all (k : nat) (f : list nat -> list (list Z) -> result (list Z))
+         (frames : list ch_frame) (tl : option err) : list ch_frame * option err :=
+  match frames with
+  | [] => ([], tl)
+  | fr :: rest =>
+    match tr_add_col k f fr with
+    | Err e => ([], Some e)
+    | Ok fr' => let s := tr_compute_frames_all k f rest tl in (fr' :: fst s, snd s)
     end
   end.
 
@@ -213,14 +225,20 @@ Fixpoint tr_read (r : tr_reader) (cols : option (list nat)) : result ch_frame :=
     end
   | TrComputed r' k f =>
     match cols with
-    | None => Err EType                                    (* _reader_columns(None): typeguard *)
+    | None =>                                              (* all columns of the inner reader, then the computed one *)
+      match tr_read r' None with
+      | Err e => Err e
+      | Ok fr => tr_add_col k f fr
+      end
     | Some cs =>
       match tr_read r' (Some (tr_without k cs)) with
       | Err e => Err e
-      | Ok fr => match tr_add_col k f fr with
-                 | Err e => Err e
-                 | Ok fr' => ch_select EKey cs fr'
-                 end
+      | Ok fr => if ch_mem k cs                             (* func is only called when its column is requested *)
+                 then match tr_add_col k f fr with
+                      | Err e => Err e
+                      | Ok fr' => ch_select EKey cs fr'
+                      end
+                 else ch_select EKey cs fr
       end
     end
   end.
@@ -267,7 +285,7 @@ Fixpoint tr_stream (r : tr_reader) (c : nat) (cols : option (list nat)) : tr_gen
     end
   | TrComputed r' k f =>
     match cols with
-    | None => ([], Some EType)
+    | None => let s := tr_stream r' c None in tr_compute_frames_all k f (fst s) (snd s)
     | Some cs => let s := tr_stream r' c (Some (tr_without k cs)) in
                  tr_compute_frames k f cs (fst s) (snd s)
     end
